@@ -17,25 +17,7 @@ variable {g : Graph}
 
 /-- an event that seals the fate of a handler of try `y` that did not start -/
 def sealsFate (g : Graph) (y h : Nat) (e : Ev) : Prop :=
-  e = .done h false ∨ e = .hacc h ∨ ∃ h' ∈ g.handlers y, e = .hrej h'
-
-/-- a list splits at the first occurrence of one of its elements -/
-theorem beforeEv_split {e : Ev} {l : List Ev} (h : e ∈ l) : ∃ b, l = beforeEv e l ++ e :: b := by
-  unfold beforeEv
-  induction l with
-  | nil => cases h
-  | cons x xs ih =>
-    by_cases hx : x = e
-    · subst hx; exact ⟨xs, by simp [List.takeWhile]⟩
-    · have hm : e ∈ xs := by
-        rcases List.mem_cons.mp h with h1 | h1
-        · exact absurd h1.symm hx
-        · exact h1
-      obtain ⟨b, hb⟩ := ih hm
-      refine ⟨b, ?_⟩
-      have : (x != e) = true := by simpa using hx
-      simp only [List.takeWhile, this, List.cons_append]
-      rw [← hb]
+  e = .done h false ∨ ∃ h' ∈ g.handlers y, e = .hrej h'
 
 /-- a handler that met its fate either started, or the trace splits at a sealing event with a cause of
 failure in the owner's or the root context strictly before it -/
@@ -43,7 +25,7 @@ theorem fate_timed (hw : WF g) {pre : List Ev} (hok : TraceOk g pre) {y h : Nat}
     (hh : h ∈ g.handlers y) (hf : handlerFate g pre y h) :
     Ev.cmd h 0 ∈ pre ∨ ∃ a e b, pre = a ++ e :: b ∧ sealsFate g y h e ∧ causeFor g a (g.tryd y).owner := by
   have hctx := (handler_facts hw hy hh).2.1
-  rcases hf with h1 | ⟨_, hd | ⟨hm, hc⟩⟩ | ⟨h', hm, hr⟩
+  rcases hf with h1 | ⟨_, hd⟩ | ⟨h', hm, hr⟩
   · exact Or.inl h1
   · obtain ⟨a, b, hs, hk⟩ := traceOk_mem hok hd
     refine Or.inr ⟨a, _, b, hs, Or.inl rfl, ?_⟩
@@ -52,13 +34,8 @@ theorem fate_timed (hw : WF g) {pre : List Ev} (hok : TraceOk g pre) {y h : Nat}
     unfold causeFor at this ⊢
     rw [hctx] at this
     exact this
-  · obtain ⟨b, hb⟩ := beforeEv_split hm
-    refine Or.inr ⟨_, _, b, hb, Or.inr (Or.inl rfl), ?_⟩
-    unfold causeFor at hc ⊢
-    rw [hctx] at hc
-    exact hc
   · obtain ⟨a, b, hs, hk⟩ := traceOk_mem hok hr
-    refine Or.inr ⟨a, _, b, hs, Or.inr (Or.inr ⟨h', hm, rfl⟩), ?_⟩
+    refine Or.inr ⟨a, _, b, hs, Or.inr ⟨h', hm, rfl⟩, ?_⟩
     have := hk.2.2
     unfold causeFor at this ⊢
     rw [(handler_facts hw hy hm).2.1] at this
@@ -89,9 +66,8 @@ theorem fate_at_close (hw : WF g) {tr pre post : List Ev} (htr : TraceOk g tr) {
   rw [hc] at this
   exact this.2.2.2 h hsel
 
-/-- in the MODEL the owner of a try block never leaves the `pip:try` command while a handler that was
-accepted has not closed (the implementation does — finding KF-C16-1 — when the handler was accepted
-into a context that had already failed; the monitor tolerates exactly that case, `acceptedAfterCause`) -/
+/-- the owner of a try block never leaves the `pip:try` command while a handler that was accepted has
+not closed (state form of the clause `hacc h ∈ pre → hasDone pre h` of `cmdClosed`) -/
 theorem accepted_closed_when_owner_leaves (hw : WF g) {s : St} (hI : Inv g s) {y h : Nat} (hy : y < g.tries.length)
     (hh : h ∈ g.handlers y) (hna : s.pc (g.tryd y).owner ≠ .afterCmd (g.tryd y).idx)
     (hacc : Ev.hacc h ∈ s.tr) : hasDone s.tr h := by
@@ -107,7 +83,7 @@ theorem accepted_closed_when_owner_leaves (hw : WF g) {s : St} (hI : Inv g s) {y
 def ordOk (g : Graph) (pre : List Ev) : Ev → Prop
   | .hacc h => ∀ y f, (g.role h = .hfail y ∨ g.role h = .hsucc y) → (g.tryd y).fin = some f → Ev.hacc f ∈ pre
   | .hrej h => (∀ y f, (g.role h = .hfail y ∨ g.role h = .hsucc y) → (g.tryd y).fin = some f → Ev.hacc f ∈ pre) ∧
-      causeIn g 0 pre        -- in the model a submission is refused only because the ROOT scope is done
+      causeFor g pre h       -- a submission is refused only because the handler's scope or the root scope is done
   | _ => True
 
 def TraceOrd (g : Graph) (tr : List Ev) : Prop :=
@@ -190,7 +166,7 @@ theorem oinv_submit {s : St} (hO : OInv g s) {y : Nat} {ho : Option Nat} {sel : 
       Ev.hacc f ∈ s.tr ∨ (ho = some f ∧ sel = true))
     (hord : ∀ h, ho = some h → ∀ y' f, (g.role h = .hfail y' ∨ g.role h = .hsucc y') → (g.tryd y').fin = some f →
       Ev.hacc f ∈ s.tr)
-    (hrejc : ∀ h, ho = some h → ¬ canCreate g s h = true → causeIn g 0 s.tr) :
+    (hrejc : ∀ h, ho = some h → ¬ canCreate g s h = true → causeFor g s.tr h) :
     OInv g (submitHandler g s y ho sel next) := by
   have other : ∀ (s' : St) (q : TG), s'.tg = upd s.tg y q → (∀ e, e ∈ s.tr → e ∈ s'.tr) →
       ∀ z v f, z ≠ y → (s'.tg z = .subFail v ∨ s'.tg z = .subSucc v) → (g.tryd z).fin = some f → Ev.hacc f ∈ s'.tr := by
@@ -248,14 +224,17 @@ theorem oinv_submit {s : St} (hO : OInv g s) {y : Nat} {ho : Option Nat} {sel : 
         · exact other _ .done rfl (fun e he => List.mem_append_left _ he) z v f hz hq hf
       · exact traceOrd_snoc hO.ord ⟨hord h rfl, hrejc h rfl hcan⟩
 
-/-- a handler has an empty wait list, so its submission is refused only when the root scope is done -/
-theorem root_cause_of_refusal {s : St} (hI : Inv g s) {h : Nat} (hnw : g.waits h = [])
-    (hcan : ¬ canCreate g s h = true) : causeIn g 0 s.tr := by
-  have hroot : s.cerr 0 = true := by
-    unfold canCreate at hcan
-    rw [hnw, validWL_nil] at hcan
-    simpa using hcan
-  rcases hI.i2 0 hroot with h1 | h1 <;> exact h1
+/-- a handler has an empty wait list, so its submission is refused only when its scope or the root scope is done -/
+theorem root_cause_of_refusal {s : St} (hI : Inv g s) {h : Nat} (hnw : g.waits h = []) (hih : isHandler g h = true)
+    (hcan : ¬ canCreate g s h = true) : causeFor g s.tr h := by
+  unfold canCreate submitCtxOk at hcan
+  rw [hnw, validWL_nil] at hcan
+  unfold isHandler at hih
+  cases hr : g.role h <;> simp [hr] at hih hcan
+  all_goals
+    cases h0 : s.cerr 0
+    · exact hI.i2 _ (hcan h0)
+    · rcases hI.i2 0 h0 with h1 | h1 <;> exact Or.inr h1
 
 theorem oinv_step {s s' : St} (hw : WF g) (hI : Inv g s) (hO : OInv g s) (l : Label)
     (hs : step g s l = some s') : OInv g s' := by
@@ -291,7 +270,7 @@ theorem oinv_step {s s' : St} (hw : WF g) (hI : Inv g s) (hO : OInv g s) (l : La
         rw [b] at hr; rcases hr with hr | hr <;> cases hr
       · intro h hho hcan
         obtain ⟨a, b⟩ := h3 h hho
-        exact root_cause_of_refusal hI (hw.hfin a b).2.2.2.2 hcan
+        exact root_cause_of_refusal hI (hw.hfin a b).2.2.2.2 (by unfold isHandler; rw [b]) hcan
     · -- fail
       rename_i v htg
       have hy := hy (by rw [htg]; simp)
@@ -306,7 +285,7 @@ theorem oinv_step {s s' : St} (hw : WF g) (hI : Inv g s) (hO : OInv g s) (l : La
         exact hO.tg y v f (Or.inl htg) hf
       · intro h hho hcan
         obtain ⟨a, b⟩ := h2 h hho
-        exact root_cause_of_refusal hI (hw.hfail a b).2.2.2.2 hcan
+        exact root_cause_of_refusal hI (hw.hfail a b).2.2.2.2 (by unfold isHandler; rw [b]) hcan
     · -- success
       rename_i v htg
       have hy := hy (by rw [htg]; simp)
@@ -321,7 +300,7 @@ theorem oinv_step {s s' : St} (hw : WF g) (hI : Inv g s) (hO : OInv g s) (l : La
         exact hO.tg y v f (Or.inr htg) hf
       · intro h hho hcan
         obtain ⟨a, b⟩ := h1 h hho
-        exact root_cause_of_refusal hI (hw.hsucc a b).2.2.2.2 hcan
+        exact root_cause_of_refusal hI (hw.hsucc a b).2.2.2.2 (by unfold isHandler; rw [b]) hcan
     · cases hs
 
 theorem oinv_init (g : Graph) : OInv g init := by
